@@ -68,10 +68,11 @@ def execute(case):
             walk(e)
             return out
 
-        def svc_func(k, beh):
+        def svc_func(k, beh, snapshot=True):
             async def func():
                 vis = [i for i, T in RT.items() if get_resources(T)]
-                log(ev="svc.snapshot", k=k, vis=vis)
+                if snapshot:
+                    log(ev="svc.snapshot", k=k, vis=vis)
 
                 async def own_td():
                     with CancelScope(shield=True):
@@ -148,7 +149,44 @@ def execute(case):
                 async def block():
                     try:
                         async with Context() as ctx:
-                            for i, it in enumerate(items, start=1):
+                            idx = 0
+                            while idx < len(items):
+                                idx += 1
+                                i, it = idx, items[idx - 1]
+                                if it["kind"] == "svcslow":
+                                    # a slow start handshake: the function calls task_status.started() only when told to; meanwhile (from
+                                    # this task) the registration that follows in the program is made; then the handshake completes
+                                    hs_gate, started = Event(), Event()
+                                    inner = svc_func(i, it["beh"], snapshot=False)
+
+                                    async def slow(*, task_status, hs_gate=hs_gate, inner=inner):
+                                        await hs_gate.wait()
+                                        task_status.started()
+                                        await inner()
+
+                                    async def starter(i=i, slow=slow, started=started):
+                                        try:
+                                            await ctx.start_service_task(slow, f"svc{i}")
+                                        except Exception as e:  # noqa: BLE001
+                                            log(ev="unexpected", what="start_service_task:" + type(e).__name__)
+                                        finally:
+                                            started.set()
+                                    sig[i] = Event()
+                                    spawn_without_context(starter)
+                                    for _ in range(3):
+                                        await sleep(0)
+                                    if idx < len(items) and items[idx]["kind"] == "res":
+                                        idx += 1
+                                        j = idx
+
+                                        def cbj(j=j):
+                                            log(ev="cb.begin", id=j)
+                                        ctx.add_resource(RT[j](), teardown_callback=cbj)
+                                        log(ev="reg", id=j)
+                                    log(ev="svc.start", k=i, action=it["action"])
+                                    hs_gate.set()
+                                    await started.wait()
+                                    continue
                                 if it["kind"] == "res":
                                     def cb(i=i):
                                         log(ev="cb.begin", id=i)
